@@ -89,6 +89,9 @@ def check(x, nw, normal):
 _FENCE = re.compile(r'^[> ]*(?:(?:[-+*]|\d{1,9}[.)]) +)*[> ]*(`{3,}|~{3,})[^`\n]*$')
 
 
+_GAINED = re.compile(r'^[> ]*(`{3,}|~{3,})[^\n]*\n[> ]*\n[> ]*\1 *$', re.M)
+
+
 def _ncells(line):
     return max(len([c for c in re.split(r'(?<!\\)\|', v.strip()) if c])
                for v in (line, re.sub(r'^[> ]*', '', line)))
@@ -118,6 +121,8 @@ def classify(x, contract, nw, fails_without_nw, observed=None):
                     not body.strip(m.group(1)[0] + ' '):
                 return 'empty-fenced-code-gains-line'
             break
+    if isinstance(observed, dict) and _GAINED.search(observed.get('markdown', '')) and not _GAINED.search(x):
+        return 'empty-fenced-code-gains-line'
     for i, l in enumerate(lines[:-1]):
         body = re.sub(r'^(?: {0,3}>[ ]?)+', '', l)
         if body != '' and body.strip() == '':
